@@ -70,6 +70,9 @@ func CSVConsumer(opts ...CSVOpt) Consumer {
 
 		switch destination := data.(type) {
 		case *csv.Writer:
+			if destination == nil {
+				return errors.New("nil destination for CSVConsumer")
+			}
 			csvWriter := destination
 			o.applyToWriter(csvWriter)
 
@@ -210,6 +213,9 @@ func CSVProducer(opts ...CSVOpt) Producer {
 
 		switch origin := data.(type) {
 		case *csv.Reader:
+			if origin == nil {
+				return errors.New("nil data for CSVProducer")
+			}
 			csvReader := origin
 			o.applyToReader(csvReader)
 
